@@ -47,6 +47,8 @@ def sig_c19(f):
 PROPS = {
     "C19": dict(
         src="Properties/C19.v", target="Properties/C19.vo",
+        # statements about the tree as it is: the "flag is repaired" premises discharged against Extracted.Facts
+        more_src=["Properties/C19Current.v"],
         support=["Quote/Model.vo", "Quote/ProofsCodec.vo", "Quote/ProofsMisc.vo"], run_targets=["Run/QuoteCases.vo", "Quote/ProofsCurrent.vo"],
         drivers=[dict(name="quote", n_quick=2000, n_thorough=24000, shard=250,
                       results={"R_quote_agree": "agree", "R_quote_mon": "mon",
